@@ -881,6 +881,167 @@ def gen_long_read(ctx):
     return out
 
 
+def _sel_object(sel):
+    """case selector -> (python object passed to the reader, model encoding, positions on an axis of n)."""
+    kind = sel[0]
+    if kind == "int":
+        cast = {"py": int, "i64": np.int64, "i32": np.int32, "i16": np.int16}[sel[2]]
+        return cast(sel[1]), [0, int(sel[1])]
+    if kind == "slice":
+        a, b, c = sel[1], sel[2], sel[3]
+        enc = [1]
+        for v in (a, b, c):
+            enc += [0, 0] if v is None else [1, int(v)]
+        return slice(a, b, c), enc
+    items = [int(v) for v in sel[1]]
+    obj = np.array(items, dtype=np.int64) if sel[2] == "array" else items
+    return obj, [2] + items
+
+
+def _sel_positions(sel, n):
+    """NumPy semantics on an axis of length n, written independently: list of positions or None (IndexError)."""
+    if sel[0] == "int":
+        i = int(sel[1])
+        return [i % n] if -n <= i < n else None
+    if sel[0] == "slice":
+        return list(range(n))[slice(sel[1], sel[2], sel[3])]
+    out = []
+    for i in sel[1]:
+        if not -n <= i < n:
+            return None
+        out.append(i % n)
+    return out
+
+
+def exec_sync_sel(case):
+    """Reader.read_sync(sel) and Reader.read(sel)[1] for integer / slice (any step) / integer-list selectors."""
+    import spikeglx
+    r = Result()
+    typ, counts, ns, nc = case["typ"], case["counts"], case["ns"], case["nc"]
+    data, sel, range_max = case["data"], case["sel"], case.get("range_max", 4)
+    fl = case.get("floor", "default")
+    use_floor = (fl == "default") or bool(fl)
+    tags = {"kind": "sync_sel", "typ": "nidq" if typ == "nidq" else "imec", "selector": sel[0]}
+    D = np.array(data, dtype=np.int64).reshape(ns, nc)
+    wcols, acols = _layout(typ, counts, nc)
+    obj, senc = _sel_object(sel)
+    pos = _sel_positions(sel, ns)
+    gain_f = Fraction(range_max) / 32768
+    gain_i = gain_f * ONE
+    thr_d = Fraction(THR_DEFAULT) * ONE
+    r.inp = ([6, 1 if typ == "nidq" else 0] + list(counts) + ([0] if typ != "nidq" else []) +
+             [nc, ONE, int(thr_d), int(gain_i), 1 if use_floor else 0, int(thr_d), len(senc)] + senc +
+             [ns] + [int(v) for v in data])
+    exp = {}
+    if pos is not None:
+        for name, uf in (("rs", use_floor), ("rd", True)):
+            bits, safe = analog_safety(D, pos, acols, gain_f, THR_DEFAULT, uf)
+            if not safe:
+                r.info["unsafe"] = True
+            exp[name] = [py_bits(D[t, wcols[0]]) + bits[k] for k, t in enumerate(pos)]
+    tmp = common.tmpdir("C10_")
+    sr = None
+    try:
+        p = write_recording(tmp, typ, counts, ns, data, range_max, None, 0, case.get("gains"))
+        try:
+            sr = spikeglx.Reader(p)
+        except _IMPL_EXC as e:
+            r.bad.append(("spikeglx.Reader could not open a valid recording: %r" % (e,), dict(tags, defect="open")))
+            return r
+        kw = {} if fl == "default" else {"floor_percentile": fl}
+        got = {"rs": _try(lambda: sr.read_sync(obj, **kw)), "rd": _try(lambda: sr.read(obj)[1])}
+        r.out = []
+        for name in ("rs", "rd"):
+            val, exc = got[name]
+            r.out += [0] if exc is not None else _enc_rows(val)
+        if r.info.get("unsafe"):
+            return r
+        for name, what in (("rs", "read_sync(%r)" % (obj,)), ("rd", "read(%r)[1]" % (obj,))):
+            val, exc = got[name]
+            if pos is None:
+                if not isinstance(exc, IndexError):
+                    r.bad.append(("%s with an out-of-range selector on %d samples returned %s / raised %r instead "
+                                  "of IndexError" % (what, ns, type(val).__name__, exc), dict(tags, defect="range")))
+                continue
+            if exc is not None:
+                if sel[0] == "int" and acols:
+                    d = "int_selector_with_analog"
+                elif not pos and acols and (use_floor or name == "rd"):
+                    d = "empty_selection_floor"
+                else:
+                    d = "exception"
+                r.bad.append(("%s raised %r; the selector picks %d of %d samples (%d analog sync channels)" % (
+                    what, exc, len(pos), ns, len(acols)),
+                    dict(tags, defect=d, **({"kind": "sync_read"} if d == "empty_selection_floor" else {}))))
+                continue
+            s_ = val
+            if not isinstance(s_, np.ndarray) or s_.dtype != np.int8 or s_.shape != (len(pos), 16 + len(acols)):
+                r.bad.append(("%s returned %s shape %s dtype %s; the selector picks %d of %d samples: expected an int8 "
+                              "(%d, %d) array" % (what, type(s_).__name__, getattr(s_, "shape", None),
+                                                  getattr(s_, "dtype", None), len(pos), ns, len(pos), 16 + len(acols)),
+                              dict(tags, defect="rows")))
+            elif s_.tolist() != exp[name]:
+                k = next(i for i in range(len(pos)) if s_[i].tolist() != exp[name][i])
+                r.bad.append(("%s row %d is not sample %d of the recording decoded" % (what, k, pos[k]),
+                              dict(tags, defect="rows")))
+        r.nontrivial = bool(pos)
+        return r
+    finally:
+        if sr is not None:
+            try:
+                sr.close()
+            except Exception:
+                pass
+        shutil.rmtree(tmp, ignore_errors=True)
+
+
+def gen_sync_sel(ctx):
+    rng = ctx.rng
+    cases = []
+    layouts = [("ap", [384, 0, 1], 385), ("lf", [0, 384, 1], 385), ("nidq", [0, 0, 0, 1], 1), ("nidq", [0, 0, 1, 1], 2),
+               ("nidq", [1, 0, 2, 1], 4), ("nidq", [2, 3, 0, 1], 6)]
+
+    def recording(typ, counts, nc, ns):
+        D = [[rng.randrange(-32768, 32768) for _ in range(nc)] for _ in range(ns)]
+        if typ == "nidq":
+            for c in range(counts[2]):            # clean TTL: baseline-dominated, pulses far from the threshold
+                base = rng.choice([0, 40, -90])
+                for t in range(ns):
+                    D[t][counts[0] + counts[1] + c] = base + (rng.choice([15000, 20000]) if rng.random() < 0.3 else 0)
+        return [v for row in D for v in row]
+
+    # fixed: every boundary integer, as python int and as NumPy integers, on an imec and two nidq layouts
+    for typ, counts, nc in (layouts[0], layouts[2], layouts[4]):
+        ns = 9
+        data = recording(typ, counts, nc, ns)
+        for i in (0, 1, ns - 1, -1, -2, -ns, ns, -ns - 1):
+            for how in (("py", "i64") if i in (-1, 0, ns - 1) else ("py",)):
+                cases.append({"kind": "sync_sel", "typ": typ, "counts": counts, "ns": ns, "nc": nc, "data": data,
+                              "sel": ["int", i, how], "floor": "default"})
+        for sel in (["list", [-1], "list"], ["list", [0, ns - 1, -1, -ns], "array"], ["slice", -1, None, None],
+                    ["slice", None, None, -1], ["slice", -1, 0, None], ["slice", ns - 1, None, -3], ["list", [], "list"]):
+            cases.append({"kind": "sync_sel", "typ": typ, "counts": counts, "ns": ns, "nc": nc, "data": data,
+                          "sel": sel, "floor": rng.choice(["default", 0])})
+    n = 400 if ctx.thorough() else 50
+    for j in range(n):
+        typ, counts, nc = rng.choice(layouts)
+        ns = rng.choice([1, 2, 5, 13]) if typ == "nidq" else rng.choice([1, 6])
+        data = recording(typ, counts, nc, ns)
+        u = rng.random()
+        if u < 0.4:
+            sel = ["int", rng.choice([0, 1, ns - 1, -1, -2, -ns, ns, -ns - 1, rng.randrange(-ns, ns)]),
+                   rng.choice(["py", "py", "i64", "i32", "i16"])]
+        elif u < 0.7:
+            b = [None, 0, 1, -1, -2, ns, ns - 1, -ns, ns + 3, -ns - 3, rng.randrange(-ns, ns + 1)]
+            sel = ["slice", rng.choice(b), rng.choice(b), rng.choice([None, 1, 2, -1, -2, 3, -5])]
+        else:
+            sel = ["list", [rng.randrange(-ns, ns) for _ in range(rng.choice([0, 1, 2, 5]))] +
+                   ([rng.choice([ns, -ns - 1])] if rng.random() < 0.1 else []), rng.choice(["list", "array"])]
+        cases.append({"kind": "sync_sel", "typ": typ, "counts": counts, "ns": ns, "nc": nc, "data": data, "sel": sel,
+                      "floor": rng.choice(["default", "default", 0]), "gains": [200, rng.choice([1, 10])]})
+    return cases
+
+
 def exec_notopen(case):
     """Reader constructed with open=False: the three sync readers refuse with IOError (the guard of the
     anchored functions); after `with reader:` / open() they deliver the usual rows.  Oracle only."""
@@ -930,7 +1091,7 @@ def exec_notopen(case):
         shutil.rmtree(tmp, ignore_errors=True)
 
 
-EXEC = {"notopen": exec_notopen, "long_read": exec_long_read, "split": exec_split, "fronts1": exec_fronts1, "fronts2": exec_fronts2,
+EXEC = {"sync_sel": exec_sync_sel, "notopen": exec_notopen, "long_read": exec_long_read, "split": exec_split, "fronts1": exec_fronts1, "fronts2": exec_fronts2,
         "sync_read": exec_sync_read, "ttl": exec_ttl, "nometa": exec_nometa}
 
 
@@ -1434,6 +1595,7 @@ def run(ctx):
     cases += gen_split(ctx) + gen_fronts(ctx) + gen_sync_read(ctx) + gen_ttl(ctx)
     cases += [{"kind": "nometa", "ns": 12, "fill_seed": ctx.rng.randrange(10 ** 6)}]
     cases += gen_long_read(ctx)
+    cases += gen_sync_sel(ctx)
     cases += [{"kind": "notopen", "ns": 30, "seed": ctx.rng.randrange(10 ** 6), "how": "with"},
               {"kind": "notopen", "ns": 30, "seed": ctx.rng.randrange(10 ** 6), "how": "open"}]
     inputs, outputs, owners = [], [], []
